@@ -470,12 +470,22 @@ fn slice(array: &[Rcvar], start: Option<i32>, stop: Option<i32>, step: i32) -> V
     if step > 0 {
         while i < b {
             result.push(array[i as usize].clone());
-            i += step;
+            // The next index may not be representable (e.g. a step of i32::MAX):
+            // it would lie past the end of the array, so the slice is complete.
+            i = match i.checked_add(step) {
+                Some(next) => next,
+                None => break,
+            };
         }
     } else {
         while i > b {
             result.push(array[i as usize].clone());
-            i += step;
+            // The next index may not be representable (e.g. a step of i32::MAX):
+            // it would lie past the end of the array, so the slice is complete.
+            i = match i.checked_add(step) {
+                Some(next) => next,
+                None => break,
+            };
         }
     }
     result
